@@ -75,3 +75,70 @@ def choke_point(prog, ctx, rule):
                     ctx.fail(rule, "address of %s taken" % PARSER, n.where, "in %s" % f.name,
                              key="parser-addr:%s" % f.name)
     return gate, parser
+
+
+def unsigned_minus_indices(ctx, rule, f):
+    """Every array index of the form E - k with unsigned E must be reachable only with E >= k established
+    (consistent-path reachability).  Returns the number of instances."""
+    cfg = f.cfg
+    n = 0
+    for x in f.walk():
+        if x.k != "ArraySubscriptExpr":
+            continue
+        idx = x.children[1].strip()
+        if idx.k == "BinaryOperator" and idx.j.get("op") == "-" and idx.children[1].const_value() and idx.children[0].strip().j.get("sg") is False:
+            e = render(idx.children[0])
+            k = idx.children[1].const_value()
+            if any(c.k == "CallExpr" for c in idx.children[0].walk()):
+                continue        # strlen(x) - 1 and friends: the last-character rule (C04.S2)
+            # instances: E is the induction variable of an enclosing counting loop that starts below k
+            # ("compare with the previous element").  Lengths and counters need value reasoning and are not armed.
+            from sa import loops as _loops
+            ind = False
+            for a in x.ancestors():
+                if a.k == "ForStmt":
+                    sh = _loops.for_shape(a)
+                    if sh.var == e and sh.start_node is not None and (sh.start_node.const_value() is None or sh.start_node.const_value() < k):
+                        ind = True
+            if not ind:
+                continue
+            n += 1
+
+            def guard(lit, b2, i2, e=e, k=k):
+                if lit is None:
+                    return False
+                if lit.kind == "truth" and lit.atom == e and lit.pol:
+                    return k == 1
+                if lit.kind == "lt" and render(lit.rhs) == e and lit.pol and lit.lhs.const_value() is not None and lit.lhs.const_value() >= k - 1:
+                    return True
+                return False
+            wp = cfg.feasible_reach(cfg.block_of(x), guard, lambda a, e=e: a == e or (" " + e + " ") in (" " + a + " "))
+            inst = "%s: %s" % (f.name, render(x))
+            if wp is None:
+                ctx.ok(rule, inst, x.where, "every consistent path establishes %s >= %d first" % (e, k))
+            else:
+                # a counter that starts at a positive value / was just incremented?  (length-1 after length++ ...)
+                if _positive_by_construction(f, x, idx.children[0]):
+                    ctx.ok(rule, inst, x.where, "%s was incremented / tested against 0 on the way (see path)" % e)
+                else:
+                    ctx.fail(rule, inst, x.where,
+                             "`%s` is unsigned and the index %s is reachable with %s == 0: element [-1] of the array is addressed" % (e, render(idx), e),
+                             key="underflow:%s:%s" % (f.name, render(x)), path=cfg.describe_path(wp)[-6:])
+    return n
+
+
+def _positive_by_construction(f, use, e):
+    """E is a length field that is incremented on every path before the use in this function
+    (ef->length++ ... ef->file_entry[ef->length-1]) or the function returned early for E <= 0."""
+    cfg = f.cfg
+    et = render(e)
+    ub = cfg.block_of(use)
+    incs = set()
+    for lhs, rhs, st, kind in query.stores(f):
+        if render(lhs) == et and kind == "++":
+            incs.add(cfg.block_of(st))
+    if incs and ub not in cfg.reachable(cfg.entry, avoid_blocks=incs) and ub not in incs:
+        return True
+    # early return under E <= 0 :  literal (0 < E) true on every path
+    ok, cut = cfg.all_paths_cut(ub, lambda lit, b, i: lit is not None and lit.kind == "lt" and lit.pol and lit.lhs.const_value() == 0 and render(lit.rhs) == et)
+    return ok and bool(cut)
